@@ -535,6 +535,19 @@ func (r *resolver) addDataDefinition(parent HasDataDefinitions, child Definition
 		fc.Debug.Printf("ADD %s/%s", parent.Ident(), child.Ident())
 	}
 
+	if _, isChoice := child.(*Choice); isChoice {
+		// the parent indexes what the cases of a choice hold under their own names:
+		// resolve the cases first, so that a definition its features remove is not
+		// left findable by name
+		if _, err := r.enter(child); err != nil {
+			return nil, err
+		}
+		if err := parent.addDataDefinition(child); err != nil {
+			return nil, err
+		}
+		return []Definition{child}, nil
+	}
+
 	if err := parent.addDataDefinition(child); err != nil {
 		return nil, err
 	}
